@@ -231,9 +231,8 @@ FLAGS = '-_0^#'
 
 def fmt_shapes(tier):
     """(flag count, width kind) combinations"""
-    nflags = (0, 1) if tier == 'quick' else (0, 1, 2)
-    widths = (None, 'digit') if tier == 'quick' else (None, 'digit', 'teen')
-    return [(k, w) for k in nflags for w in widths]
+    if tier == 'quick': return [(0, None), (0, 'digit'), (1, None), (1, 'digit')]
+    return [(0, None), (0, 'digit'), (0, 'teen'), (1, None), (1, 'digit'), (2, None)]
 
 
 def run_strftime(ex, P, st, fmt_chars_):
@@ -284,7 +283,7 @@ def ob_directives(chk, P):
     with chk.obligation('strftime/directives', 'every known directive prints the documented value of its field: numeric directives as decimal numbers with the documented default width and padding '
                         '(zero, or space for %e %k %l), `-` removes padding, `_`/`0` choose the padding character, an explicit width overrides the default; names and AM/PM honour ^ and #; '
                         '%L/%N print the leading digits of the 9-digit nanosecond; %z family prints sign, hours, minutes(, seconds); composites equal their expansion; no panic',
-                        {'format': "'%' + 0..1 (quick) / 0..2 (thorough) flags from -_0^# (solver-chosen) + no width | one symbolic digit 1-9 | (thorough) 1 + a symbolic digit, + each of the known directives",
+                        {'format': "'%' + flags from -_0^# (solver-chosen; quick: 0..1, thorough: 0..2, two flags only without width) + no width | one symbolic digit 1-9 | (thorough, no flags) 1 + a symbolic digit, + each of the known directives",
                          'timestamp': 'every accessor returns any value in its documented range (year 1..9999, |unix timestamp| < 10^11, offsets within +-25:59:59); relations between fields are not assumed'}) as ob:
         ex = Executor(P, models_with([])); ex.seed = chk.seed; ex.max_steps = 200000
         ob.stubs += ['time::OffsetDateTime accessors: symbolic values within documented ranges (abstract timestamp)', 'time::Weekday / Month: enums with a symbolic discriminant']
